@@ -11,6 +11,7 @@
   returns the delegate).  Every Go slice / index expression that can panic is an explicit `.error (.panic _)`.
 -/
 import Gzx.Util
+import Gzx.Model.ExceptList
 namespace Gzx.Luminance
 
 /-- failures of a view operation: a `Fault` (panic / IllegalArgumentException) or the
@@ -183,13 +184,13 @@ def isRotateSupported (v : View) : Bool := v.kind == .img
 
 /-- row `j` of the rotated copy: `newLuminas[j*height+i] = oldLuminas[(top+i)*dataWidth + left+width-1-j]` -/
 def rotRow (v : View) (j : Nat) : VRes (List Nat) :=
-  (List.range v.h).mapM (fun i => idx v.data ((v.top + i) * v.dataW + (v.left + v.w - 1 - j)))
+  mapME (fun i => idx v.data ((v.top + i) * v.dataW + (v.left + v.w - 1 - j))) (List.range v.h)
 
 /-- `RotateCounterClockwise()`: only `GoImageLuminanceSource` implements it (fresh `h x w` array) -/
 def rotateCCW (v : View) : VRes View :=
   match v.kind with
   | .img => do
-    let rows ← (List.range v.w).mapM (rotRow v)
+    let rows ← mapME (rotRow v) (List.range v.w)
     .ok { kind := .img, data := rows.flatten, dataW := v.h, dataH := v.w, left := 0, top := 0,
           w := v.h, h := v.w, inv := v.inv }
   | _ => .error .unsupported
